@@ -23,70 +23,59 @@ theorem matches_iff (a b : Record) :
       a.name = b.name ∧ a.ty = b.ty ∧ a.cls = b.cls ∧ a.flush = b.flush ∧ a.rdata = b.rdata :=
   matchesRec_iff a b
 
-/-- What the code does: an answer `mine` is left out because of the known answer `other`
-    iff `other` matches it (see `matches_iff`) and its TTL is above half of mine.  The
-    integer division `mine.ttl / 2` of the code is the exact half: `other.ttl > mine.ttl / 2`
-    iff `2·other.ttl > mine.ttl`. -/
+/-- What the code does (after the repair of D18): an answer `mine` is left out because of the
+    known answer `other` iff `other` is that same record - owner (ASCII letter case ignored),
+    type, class without the cache-flush bit, RDATA as on the wire - and its TTL is above half
+    of mine.  The integer division `mine.ttl / 2` of the code is the exact half:
+    `other.ttl > mine.ttl / 2` iff `2·other.ttl > mine.ttl`. -/
 theorem suppress_iff (mine other : Record) :
-    mine.suppressedByAnswer other = true ↔ mine.matchesRec other = true ∧ 2 * other.ttl > mine.ttl := by
-  simp only [suppressedByAnswer, Bool.and_eq_true, decide_eq_true_eq]
+    mine.suppressedByAnswer other = true ↔ mine.sameRecord other = true ∧ 2 * other.ttl > mine.ttl := by
+  simp only [suppressedByAnswer, sameRecord, rrdataMatch, Bool.and_eq_true, decide_eq_true_eq]
   exact and_congr_right fun _ => half_ttl mine.ttl other.ttl
 
 /-- Against a whole query: suppressed iff one of its answers suppresses. -/
 theorem suppressedBy_iff (mine : Record) (answers : List Record) :
-    mine.suppressedBy answers = true ↔ ∃ o ∈ answers, mine.matchesRec o = true ∧ 2 * o.ttl > mine.ttl := by
+    mine.suppressedBy answers = true ↔ ∃ o ∈ answers, mine.sameRecord o = true ∧ 2 * o.ttl > mine.ttl := by
   simp only [suppressedBy, List.any_eq_true, suppress_iff]
 
 /-- **The property statement** for the responder: an answer is left out iff the known answer
     is that same record - owner, type, class (without the cache-flush bit), RDATA (as on the
-    wire) - with a TTL above half.  It does NOT hold of the code (`responder_full_false`):
-    the statement is kept here at full strength, the theorem proved is `suppress_partial`. -/
+    wire) - with a TTL above half. -/
 def C10_responder_full : Prop :=
   ∀ mine other : Record, mine.suppressedByAnswer other = true ↔ mine.sameRecord other = true ∧ 2 * other.ttl > mine.ttl
+
+/-- The statement holds of the code at full strength (it did not before the repair of D18, when
+    `suppressed_by_answer` used `matches`: cache-flush bit, letter case and - for addresses -
+    the interface had to agree as well). -/
+theorem responder_full : C10_responder_full := suppress_iff
 
 /-- a unique record as the responder holds it (cache-flush bit set), TTL 120 -/
 def mineSrv : Record := Record.new [0x69] 33 1 true 120 (.srv 0 0 80 [0x68]) 0
 /-- the same record as a compliant querier lists it (RFC 6762 section 7.1 / 10.2: bit clear), TTL 100 -/
 def knownSrv : Record := Record.new [0x69] 33 1 false 100 (.srv 0 0 80 [0x68]) 0
 
-/-- Witness (defect D18): the same record with the cache-flush bit clear and a TTL above
-    half is not honoured. -/
-theorem D18_witness :
-    mineSrv.sameRecord knownSrv = true ∧ 2 * knownSrv.ttl > mineSrv.ttl ∧ mineSrv.suppressedByAnswer knownSrv = false := by
+/-- Regression (defect D18, repaired): the same record listed with the cache-flush bit clear,
+    in another letter case, or - an address - learned on another interface, with a TTL above
+    half, is honoured; `matches` would have refused all three. -/
+theorem D18_regression :
+    mineSrv.suppressedByAnswer knownSrv = true ∧ mineSrv.matchesRec knownSrv = false ∧
+    (Record.new [0x49] 33 1 true 120 (.srv 0 0 80 [0x68]) 0).suppressedByAnswer knownSrv = true ∧
+    (Record.new [0x68] 1 1 true 120 (.addr [10, 0, 0, 1] [0x65] 2) 0).suppressedByAnswer
+      (Record.new [0x68] 1 1 true 61 (.addr [10, 0, 0, 1] [] 0) 0) = true := by
   decide
 
-theorem responder_full_false : ¬ C10_responder_full := by
-  intro h
-  have := (h mineSrv knownSrv).mpr ⟨D18_witness.1, D18_witness.2.1⟩
-  rw [D18_witness.2.2] at this
-  cases this
-
-/-- What is proved of the code: the statement holds whenever the known answer has the same
-    cache-flush bit as the responder's record and (addresses) was received on the interface
-    the responder's record belongs to.  Without that hypothesis only one direction holds
-    (`suppress_sound`). -/
-theorem suppress_partial (mine other : Record) (hflush : mine.flush = other.flush)
-    (hif : ∀ ip n i ip' n' j, mine.rdata = .addr ip n i → other.rdata = .addr ip' n' j → n = n' ∧ i = j) :
-    mine.suppressedByAnswer other = true ↔ mine.sameRecord other = true ∧ 2 * other.ttl > mine.ttl := by
-  rw [suppress_iff, matches_iff, sameRecord_iff]
-  constructor
-  · rintro ⟨⟨h1, h2, h3, _, h5⟩, ht⟩
-    exact ⟨⟨h1, h2, h3, by rw [h5]⟩, ht⟩
-  · rintro ⟨⟨h1, h2, h3, h5⟩, ht⟩
-    refine ⟨⟨h1, h2, h3, hflush, ?_⟩, ht⟩
-    cases hm : mine.rdata <;> cases ho : other.rdata <;> simp [hm, ho, RData.wire] at h5 ⊢ <;> try exact h5
-    rename_i ip n i ip' n' j
-    obtain ⟨e1, e2⟩ := hif ip n i ip' n' j hm ho
-    exact ⟨h5, e1, e2⟩
-
-/-- Never too much: whatever the bits and interfaces, an answer is only ever suppressed by
-    that same record (owner, type, class, RDATA) with a TTL above half - "never when the
-    listed TTL is below half or the record differs". -/
+/-- Never too much: an answer is only ever suppressed by that same record (owner, type, class,
+    RDATA) with a TTL above half - "never when the listed TTL is below half or the record
+    differs". -/
 theorem suppress_sound (mine other : Record) (h : mine.suppressedByAnswer other = true) :
-    mine.sameRecord other = true ∧ 2 * other.ttl > mine.ttl := by
-  rw [suppress_iff, matches_iff] at h
-  obtain ⟨⟨h1, h2, h3, _, h5⟩, ht⟩ := h
-  exact ⟨(sameRecord_iff _ _).mpr ⟨h1, h2, h3, by rw [h5]⟩, ht⟩
+    mine.sameRecord other = true ∧ 2 * other.ttl > mine.ttl :=
+  (suppress_iff mine other).mp h
+
+/-- ... and never too little: that same record with a TTL above half always suppresses,
+    whatever the cache-flush bits and interfaces. -/
+theorem suppress_complete (mine other : Record) (h : mine.sameRecord other = true) (ht : 2 * other.ttl > mine.ttl) :
+    mine.suppressedByAnswer other = true :=
+  (suppress_iff mine other).mpr ⟨h, ht⟩
 
 /-! ### querier side -/
 
@@ -159,8 +148,8 @@ theorem written_suppresses (r : Record) (now : Nat) (hc : r.created ≤ now) (hh
     ∃ r', r.updateTtl now = .ok r' ∧ r.suppressedByAnswer r' = true := by
   obtain ⟨r', h1, h2, h3, _, _, h6⟩ := written_ttl r now hc (by omega) h32
   refine ⟨r', h1, ?_⟩
-  rw [suppress_iff, matches_iff, h6]
-  exact ⟨⟨rfl, rfl, rfl, rfl, rfl⟩, by simp only []; omega⟩
+  rw [suppress_iff, sameRecord_iff, h6]
+  exact ⟨⟨rfl, rfl, rfl, rfl⟩, by simp only []; omega⟩
 
 /-! ### Non-vacuity -/
 
